@@ -38,7 +38,7 @@ fn compile(files: &[String]) -> Result<(slicec::compilation_state::CompilationSt
 }
 
 pub fn run() -> i32 {
-    let mut rep = Report::new("scopes", "3 nested module levels x `T` defined at every subset of them x a referencing field at each level x 11 spellings x 2 file orders; the same through an alias with attributes; wrong-kind targets; retrieval by scoped name");
+    let mut rep = Report::new("scopes", "3 nested module levels x `T` defined at every subset of them x a referencing field at each level x 11 spellings x 2 file orders; the same through an alias with attributes and through chains of two aliases in different modules; wrong-kind targets; retrieval by scoped name");
     let spellings = ["T", "A::T", "B::T", "C::T", "A::B::T", "B::C::T", "A::B::C::T", "::A::T", "::A::B::T", "::T", "::B::T"];
     for present in 0..8u32 {
         let defined: Vec<String> = (0..3).filter(|l| present & (1 << l) != 0).map(|l| format!("{}::T", LEVELS[l])).collect();
@@ -83,6 +83,47 @@ pub fn run() -> i32 {
                                 }
                             }
                         }
+                    }
+                }
+            }
+        }
+    }
+    // ---- alias CHAINS: every link is resolved in the scope of the alias that wrote it ---------------------------
+    for present in 0..8u32 {
+        let defined: Vec<String> = (0..3).filter(|l| present & (1 << l) != 0).map(|l| format!("{}::T", LEVELS[l])).collect();
+        for (l1, l2) in [(0usize, 2usize), (2, 0), (1, 1), (0, 1)] {
+            for sp in spellings {
+                let want = resolve(&defined, LEVELS[l2], sp);
+                for order in 0..2 {
+                    let mut files: Vec<String> = vec![];
+                    for l in 0..3usize {
+                        let mut body = format!("module {}\n", LEVELS[l]);
+                        if present & (1 << l) != 0 { body.push_str("struct T {}\n"); }
+                        if l == l1 { body.push_str(&format!("typealias Al1 = [x::first] ::{}::Al2\n", LEVELS[l2])); }
+                        if l == l2 { body.push_str(&format!("typealias Al2 = [x::second] {sp}\n")); }
+                        if l == 1 { body.push_str(&format!("struct User {{ f: ::{}::Al1 }}\n", LEVELS[l1])); }
+                        files.push(body);
+                    }
+                    if order == 1 { files.reverse(); }
+                    let label = format!("T at {:?}; User.f: Al1 (in {}) = Al2 (in {}) = {}; order {}", defined, LEVELS[l1], LEVELS[l2], sp, order);
+                    rep.case(true, || label.clone());
+                    match compile(&files) {
+                        Err(m) => rep.counterexample(&label, "a verdict", &m),
+                        Ok((state, errors)) => match &want {
+                            None => if errors == 0 { rep.counterexample(&label, "an error: the chain designates nothing", "accepted"); },
+                            Some(w) => {
+                                if errors > 0 { rep.counterexample(&label, &format!("bound to {w}"), "rejected with an error"); continue; }
+                                match state.ast.find_element::<Field>("A::B::User::f") {
+                                    Err(_) => rep.counterexample(&label, "field retrievable", "not found"),
+                                    Ok(f) => {
+                                        let got = match f.data_type().concrete_type() { Types::Struct(s) => s.parser_scoped_identifier(), other => format!("{other:?}").chars().take(40).collect() };
+                                        let attrs: Vec<String> = f.data_type().attributes().iter().map(|a| a.kind.directive().to_owned()).collect();
+                                        if &got != w { rep.counterexample(&label, &format!("bound to {w}"), &format!("bound to {got}")); }
+                                        else if !(attrs.contains(&"x::first".to_owned()) && attrs.contains(&"x::second".to_owned())) { rep.counterexample(&label, "the type attributes of BOTH aliases carried along", &format!("{attrs:?}")); }
+                                    }
+                                }
+                            }
+                        },
                     }
                 }
             }
